@@ -290,7 +290,7 @@ func genCase(t *rapid.T) Case {
 var fixedBases = map[string]*sg.TypeSpec{
 	"boolean":     {Name: "boolean"},
 	"enumeration": {Name: "enumeration", Enums: []string{"one", "two", "three"}},
-	"union": {Name: "union", Members: []*sg.TypeSpec{{Name: "uint8", Range: "0..100"}, {Name: "enumeration", Enums: []string{"auto"}}}},
+	"union":       {Name: "union", Members: []*sg.TypeSpec{{Name: "uint8", Range: "0..100"}, {Name: "enumeration", Enums: []string{"auto"}}}},
 }
 
 func baseSpace(c Case) *vt.Space {
